@@ -63,7 +63,12 @@ def pred_to_err_message(pred: Union[Predicate[Any], PredicateAsync[Any]]) -> str
     elif isinstance(pred, MaxKeys):
         return f"maximum allowed properties is {pred.size}"
     elif isinstance(pred, Choices):
-        return f"expected one of {sorted(pred.choices)}"
+        try:
+            choices = sorted(pred.choices)
+        except TypeError:
+            # choices that cannot be ordered (e.g. naive and aware datetimes)
+            choices = sorted(pred.choices, key=repr)
+        return f"expected one of {choices}"
     elif isinstance(pred, Min):
         exclusive = " (exclusive)" if pred.exclusive_minimum else ""
         return f"minimum allowed value{exclusive} is {pred.minimum}"
